@@ -17,12 +17,13 @@ class Worker:
         self.sf = env.import_sut()          # imported, never called in this process
         self.oracle = procs.OracleClient(env.ORACLE_HASHSEEDS[0])
         self.oracle2 = procs.OracleClient(env.ORACLE_HASHSEEDS[1]) if two_oracles else None
-        self.presets, self.import_table = procs.fork_call(histsim.pristine_presets, self.sf)
+        self.sim = procs.SimClient()
+        self.presets, self.import_table = self.sim.presets()
         self.verifier = histsim.Verifier(self.oracle, self.oracle2, self.presets, self.import_table)
         self.cold_checks = 0
 
     def execute(self, ops, passive):
-        return procs.fork_call(histsim.execute, self.sf, ops, passive, timeout=120.0)
+        return self.sim.history(ops, passive)
 
     def run_ops(self, ops, passive, probes=None, second=False, cold_seed=None):
         log = self.execute(ops, passive)
@@ -41,6 +42,7 @@ class Worker:
         return log, viols
 
     def close(self):
+        self.sim.close()
         self.oracle.close()
         if self.oracle2:
             self.oracle2.close()
